@@ -881,6 +881,10 @@ struct static_array<T, ::boost::multi::dimensionality_type{0}, Alloc>  // NOLINT
 		return *this;
 	}
 
+	// two zero-dimensional arrays compare by their single element (without these, the comparison is ambiguous between the element, view and array_ref overloads)
+	friend constexpr auto operator==(static_array const& self, static_array const& other) -> bool { return *self.base() == *other.base(); }
+	friend constexpr auto operator!=(static_array const& self, static_array const& other) -> bool { return !(self == other); }
+
 	static_array(
 		typename static_array::extensions_type const& extensions,
 		typename static_array::element_type const&         elem
